@@ -7,9 +7,9 @@ CFG = {
     "trivial_prefix": ("-",),
     "rule": "real Vaxis sessions on the fake console for subsets of the capabilities that gate start-up/shutdown "
             "(kittyKeyboard, sixel, unicodeCore, explicitWidth, colorTheme, inBandResize, osc176, sync) x DisableMouse "
-            "(a rotating quarter of the 512 configurations in quick, all 512 in thorough) x 3 session shapes "
-            "(start-up+Close; frames, Suspend/Resume cycles, Close, second Close; frames then Close triggered by a kill "
-            "signal on the input goroutine); non-trivial = a startup/suspend/resume/close line; distinct by case op list",
+            "(a rotating quarter of the 512 configurations in quick, all 512 in thorough) x session shapes "
+            "(start-up+Close; frames, Suspend/Resume cycles with a cursor request pending, Close, second Close; frames then Close triggered by a kill "
+            "signal on the input goroutine; Close while suspended; input-goroutine panic in a child process); non-trivial = a startup/suspend/resume/close line; distinct by case op list",
     "trusted_base": ["Spec.ModeTerm (mode terminal: ignores private modes it does not implement), Spec.Tokenize",
                      "writer prologue/epilogue model shared with C01 (tied by the C01 correspondence)"],
     "level_text": "balanced / resume_reestablishes are proved by kernel evaluation (decide +kernel) over ALL 2^9 assignments of the guard "
@@ -20,7 +20,7 @@ CFG = {
                   "and the real bytes are run through the mode terminal.",
     "level_note": "Prior values: modes Vaxis never queries are assumed reset before start-up; a terminal ignores private modes it did not "
                   "advertise. Run-time values (kitty flags, user cursor style, app id) are representative constants in the theorems and real "
-                  "values in the correspondence. Signal path exercised dynamically (Close on the input goroutine); the panic-recover path "
-                  "calls the same Close and is not injected dynamically. Real-time and OS behaviour (signals, console reset) not modelled.",
+                  "values in the correspondence. Signal path (Close on the input goroutine) and panic path (an injected malformed report makes "
+                  "handleSequence panic in a child process; recover → Close → re-panic; the mirrored console bytes are judged) are exercised dynamically. Real-time and OS behaviour (signals, console reset) not modelled.",
     "assumptions": ["the fake console answers DA1 at once (Suspend's provoke-a-reply dance terminates)"],
 }
